@@ -415,14 +415,36 @@ def _finished(trace):
     return set(e[1] for e in trace if e[0] in ('success', 'skip_uptodate'))
 
 
+class _Fin(set):
+    """the tasks that finished well in a trace; `.failed_run` = those that were started and then reported failed (with
+    `fail=True` the graph functions below also count what such calc tasks delivered: RunInput.calcResFail)"""
+    failed_run = frozenset()
+
+
+def _finished_f(trace):
+    fin = _Fin(_finished(trace))
+    started = set(e[1] for e in trace if e[0] == 'start')
+    fin.failed_run = frozenset(e[1] for e in trace if e[0] == 'failure' and e[1] in started)
+    return fin
+
+
+def _res(model, fin, c):
+    """what calc task `c` has delivered by the end of the trace"""
+    if c in fin:
+        return model['calcRes'][c]
+    if c in getattr(fin, 'failed_run', ()):
+        return (model.get('calcResFail') or [None] * model['n'])[c]
+    return None
+
+
 def _calcs_at(model, fin, t):
     cs = list(model['calcDep'][t])
     changed = bool(cs)
     while changed:
         changed = False
         for c in list(cs):
-            cr = model['calcRes'][c]
-            if c in fin and cr:
+            cr = _res(model, fin, c)
+            if cr:
                 for x in cr['calc']:
                     if x not in cs:
                         cs.append(x)
@@ -433,8 +455,8 @@ def _calcs_at(model, fin, t):
 def _delivered(model, fin, t):
     out = []
     for c in _calcs_at(model, fin, t):
-        cr = model['calcRes'][c]
-        if c in fin and cr:
+        cr = _res(model, fin, c)
+        if cr:
             out += list(cr['task']) + list(cr['file'])
     return out
 
@@ -456,9 +478,11 @@ def edges_at(model, fin, t):
     return [d for d in e if 0 <= d < model['n']]
 
 
-def closure_graph(case, trace):
+def closure_graph(case, trace, fail=True):
+    """closure graph of the run; fail=True: with what FAILED-after-start calc tasks delivered (doit hands on task.values
+    whatever the run_status), fail=False: the graph of the Lean monitor `edgesAt` (executed / up-to-date deliveries)"""
     model = case.get('model') or c09_expand(case)
-    fin = _finished(trace)
+    fin = _finished_f(trace) if fail else _finished(trace)
     clo, todo = [], [s for s in model['sel'] if 0 <= s < model['n']]
     edges = {}
     while todo:
@@ -532,13 +556,18 @@ def py_monitor(case, obs):
     tr = obs['trace']
     f = obs_flags(obs)
     cyc = cycle_tasks(closure_graph(case, tr))
+    cyc0 = cyc if not (model.get('calcResFail') and any(model['calcResFail'])) \
+        else cycle_tasks(closure_graph(case, tr, fail=False))
     cut = (not model['cont']) and any(e[0] == 'failure' for e in tr)
     started = set(e[1] for e in tr if e[0] in ('start', 'execute'))
     res = {'C09_terminates': not f['hung'],
            'C09_cycle_diagnosed': (not cyc) or cut or (f['exit'] == 3 and f['errCyclic']),
            'C09_no_cycle_task_run': not any(t in started for t in cyc),
            'C09_no_false_cycle': bool(cyc) or not (f['errCyclic'] or f['errWait'] or f['hung'])}
-    return res, {'cycle': cyc, 'cut_short': cut, 'flags': f}
+    d = {'cycle': cyc, 'cut_short': cut, 'flags': f}
+    if cyc0 != cyc:
+        d['cycle_without_fail_deliveries'] = cyc0
+    return res, d
 
 
 def py_monitor_raise(case, obs):
@@ -787,7 +816,10 @@ def gen_sampled(seed, runner):
     if runner in ('serial', 'thread') and rng.random() < 0.1:
         return gen_delayed(rng, runner, seed)
     knobs = dict(n_min=3, n_max=9, runner=runner, p_dual=0.2, p_failed=0.08, p_exc=0.04, p_error=0.04, p_utd=0.15,
-                 p_ignored=0.05, p_dup_sel=0.0, p_group=0.2)
+                 p_ignored=0.05, p_dup_sel=0.0, p_group=0.2,
+                 # runlib opt-ins: a calc task that delivers and then fails (model: calcResFail), wildcard task_dep
+                 # written by runlib (`task_dep_wild`), several actions per task, calc results with extra keys
+                 p_calc_then_fail=0.25, p_wild=0.2, p_multi_action=0.2, p_calc_extra=0.2)
     if runner == 'process':
         knobs['n_max'] = 6
     if runner == 'thread':
@@ -824,7 +856,16 @@ def gen_sampled(seed, runner):
             other = rng.choice(c['tasks'])['name']
             pat = other[:rng.randint(1, len(other))] + '*'
             if '*' not in pat[:-1] and '[' not in pat and '?' not in pat:
-                t['task_dep'].append(pat)
+                # runlib's own field for patterns (gen_case(p_wild) may have put some there already: doit expands all
+                # patterns of a task in their written order, after the literal names)
+                if pat not in t.setdefault('task_dep_wild', []):
+                    t['task_dep_wild'].append(pat)
+    if c.get('injected') or c.get('calc_backrefs'):
+        # runlib (p_calc_extra) delivers `uptodate: [False]` / `[True]` only to receivers whose status it cannot change;
+        # the edges injected above give calc tasks new receivers: keep the key, with items that change nothing
+        for t in c['tasks']:
+            if t['calc_res'] is not None and 'uptodate' in t['calc_res']:
+                t['calc_res']['uptodate'] = [None]
     c['family'] = 'sampled'
     c['seed'] = seed
     return c
@@ -1220,6 +1261,11 @@ def judge(case, obs, a_run, a_c09, st, shrink_left):
         st.count('scale:python-monitor-only(model-not-asked)')
     elif a_c09 is None or 'error' in a_c09:
         st.count('driver_unavailable')
+    elif 'cycle_without_fail_deliveries' in detail:
+        # a cycle that exists only through what a FAILED calc task delivered: the closure graph of the Lean monitor
+        # (`edgesAt`: executed / up-to-date deliveries) does not have that edge -- Python monitor only, counted
+        st.count('cycle-through-fail-delivery:python-monitor-only')
+        a_c09 = None
     else:
         lean = a_c09.get('monitor') or {}
         st.count('closure:cyclic' if a_c09.get('cycle') else 'closure:acyclic')
@@ -1266,7 +1312,7 @@ def judge(case, obs, a_run, a_c09, st, shrink_left):
                      % (wit['failed_monitors'], wit['exit'], wit['err'], wit.get('leak'), wit['detail']))
         st.count('violation_found')
         return used
-    if lean is not None:
+    if lean is not None and a_c09 is not None:
         disagree = [k for k in KEYS if py.get(k, True) != lean.get(k, True)]
         if sorted(a_c09.get('cycle') or []) != detail['cycle']:
             disagree.append('cycle(lean=%s,python=%s)' % (a_c09.get('cycle'), detail['cycle']))
@@ -1362,8 +1408,18 @@ def count_c09(st, case, obs):
     if case.get('scale'):
         st.count('scale:%s' % case['scale'].split(':')[0] + (':' + case['scale'].split(':')[1] if case['scale'].startswith('cycle:') else ''))
         st.count('scale:n>=%d' % (1000 if m['n'] >= 1000 else 200 if m['n'] >= 200 else 50 if m['n'] >= 50 else 0))
-    if has_wild(case):
+    if has_wild(case) or any(t.get('task_dep_wild') for t in case['tasks']):
         st.count('wildcard_task_dep')
+    for t in case['tasks']:
+        if t.get('calc_first'):
+            st.count('calc_first:%s' % t['outcome'])
+        if t.get('n_actions'):
+            st.count('multi_action_task')
+    if m.get('calcResFail') and any(m['calcResFail']):
+        st.count('case_with_calcResFail')
+        frun = set(e[1] for e in obs['trace'] if e[0] == 'failure') & set(e[1] for e in obs['trace'] if e[0] == 'start')
+        if any(m['calcResFail'][c] for c in frun if isinstance(c, int)):
+            st.count('run:failed_calc_task_delivered')
     for t in case['tasks']:
         if t.get('calc_extra'):
             st.count('calc_result_extra_keys:%s' % '+'.join(sorted(t['calc_extra'])))
